@@ -147,6 +147,7 @@ def gen_case(ctx, fmt=None):
                                                           ['f_V', 'squark lquark', 0, 0, False]],
                      'want': rng.choice([0, 1, 2, 3, 4])})
         case['im'] = (case['want'] + case['T']) % 3 == 0
+        case['im_form'] = [None, 'int', 'np'][(case['want'] + 2 * case['T']) % 3]
         case['multi'] = (case['want'] * 3 + case['T']) % 4 == 2
         case['ens_name'] = 'ens7' if (case['want'] + case['T']) % 4 == 1 else None
         if fmt != 'sfcf_a' and rng.random() < 0.25:
@@ -365,7 +366,8 @@ def read_and_expect(ctx, case, root, info):
             # real or imaginary part, optional alternative ensemble label
             part = 1 if case.get('im') else 0
             if case.get('im'):
-                k2['im'] = True
+                # the switch in any of the forms a truth value arrives in
+                k2['im'] = {'int': 1, 'np': np.True_}.get(case.get('im_form'), True)
             ens = 'data_'
             if case.get('ens_name'):
                 k2['ens_name'] = case['ens_name']
